@@ -105,3 +105,11 @@ def build(c):
         p.add_transition(sval(c, q), eps if a < 0 else INPUTS[a], zval(c, X), sval(c, r),
                          [zval(c, y) for y in push])
     return p
+
+
+def ref_of_case(c):
+    """the reference PDA straight from the case record (what the caller added)"""
+    from vf.ref import pda as rp
+    trans = [(sval(c, q), rp.EPS if a < 0 else INPUTS[a], zval(c, X), sval(c, r), tuple(zval(c, y) for y in push))
+             for q, a, X, r, push in c["trans"]]
+    return rp.PDA(trans, sval(c, c["start"]), zval(c, c["zstart"]), [sval(c, f) for f in c["finals"]])
